@@ -6,6 +6,7 @@ States are deduplicated by a canonical hash of the property-relevant
 fields.  The search is exhaustive over the alphabet up to the depth bound
 (or to closure, when the canonical state set is finite).
 """
+import hashlib
 import importlib
 import json
 import os
@@ -49,7 +50,10 @@ class Driver:
         return range(len(self.ops))
 
     def reset_globals(self):
-        pass
+        """every history starts from the library's global state of a fresh
+        interpreter (registries, memos, caches, mutable defaults)"""
+        from . import state
+        state.restore()
 
     def case(self, hist_ops):
         return {"module": self.__class__.__module__, "driver": self.name,
@@ -70,6 +74,21 @@ def build(drv, hist_idx):
     return world, obs
 
 
+def full_canon(drv, world):
+    """canonical state = the driver's by-value view of the object(s) plus
+    whatever differs from a fresh interpreter in the library's module-level
+    state (memos, registries, mutable defaults): two histories may only be
+    merged if both coincide"""
+    from . import state
+    c = drv.canon(world)
+    fp = state.fingerprint()
+    if fp:
+        import hashlib
+        c = hashlib.sha256(((c if isinstance(c, str) else repr(c))
+                            + "#" + fp).encode()).hexdigest()
+    return c
+
+
 def _expand(args):
     module, name, hist = args
     drv = get_driver(module, name)
@@ -77,10 +96,10 @@ def _expand(args):
     for i in drv.enabled(hist):
         world, _ = build(drv, hist)
         op = drv.ops[i]
-        pre_canon = drv.canon(world)
+        pre_canon = full_canon(drv, world)
         pre = drv.pre_info(world, op)
         obs = drv.apply(world, op)
-        c = drv.canon(world)
+        c = full_canon(drv, world)
         hops = [drv.ops[j] for j in hist] + [op]
         tv = drv.check_transition(pre, op, obs, world, hops)
         out.append((i, pre_canon, c, obs, tv))
@@ -113,7 +132,7 @@ def search(drv, rep, depth, budget_s=None, merge_check=True, label=None):
     budget_s = budget_s or float(os.environ.get("VERIF_BUDGET_S", "3000"))
     # root
     w0, _ = build(drv, [])
-    c0 = drv.canon(w0)
+    c0 = full_canon(drv, w0)
     seen = {c0: [[], None]}        # canon -> [first hist, alt hist]
     rep.extend(drv.check_state(w0, []))
     frontier = [c0]
@@ -127,6 +146,8 @@ def search(drv, rep, depth, budget_s=None, merge_check=True, label=None):
     closed = False
     cap = None
     succ_of = {}
+    late_alts = []
+    succ_digest = {}
     while frontier:
         if depth is not None and level >= depth:
             break
@@ -140,15 +161,22 @@ def search(drv, rep, depth, budget_s=None, merge_check=True, label=None):
             jobs.append((module, drv.name, h))
             if merge_check and alt is not None:
                 jobs.append((module, drv.name, alt))
+        # second histories found for states that were expanded earlier
+        # (self-loops, returns to an old state) are expanded one level late
+        for c in late_alts:
+            jobs.append((module, drv.name, seen[c][1]))
+        late_alts = []
         jobs = shuffled(jobs)
         results = pmap(_expand, jobs, chunksize=max(1, len(jobs) // 256),
                        inline_below=2)
         results.sort(key=lambda r: (len(r[0]), r[0]))
         new = []
-        succ_vectors = {}
+        alt_vecs = []
+        new_set = set()
         for hist, outs in results:
             n_hist += len(outs)
             vec = []
+            alt_run = False
             for i, pre_c, c, obs, tv in outs:
                 vec.append((i, c))
                 hc = hist + [i]
@@ -158,10 +186,14 @@ def search(drv, rep, depth, budget_s=None, merge_check=True, label=None):
                                 "but another canon before")
                     continue
                 is_alt = seen[pre_c][1] == hist and seen[pre_c][0] != hist
-                if is_alt:
-                    continue   # only used for the merge self-check
-                n_trans += 1
+                # a second history into a state is a history like any
+                # other: its violations count, its transitions are not
+                # counted twice
                 rep.extend(tv)
+                if is_alt:
+                    alt_run = True
+                    continue
+                n_trans += 1
                 if isinstance(obs, dict) and "_stats" in obs:
                     for sk, sv in obs["_stats"].items():
                         obs_stats[sk] = obs_stats.get(sk, 0) + sv
@@ -171,19 +203,26 @@ def search(drv, rep, depth, budget_s=None, merge_check=True, label=None):
                 if c not in seen:
                     seen[c] = [hc, None]
                     new.append(c)
+                    new_set.add(c)
                 elif seen[c][1] is None and seen[c][0] != hc \
                         and len(hc) <= level:
                     seen[c][1] = hc
+                    if merge_check == "full" and c not in new_set \
+                            and (depth is None or level < depth):
+                        late_alts.append(c)
             pre_c = outs[0][1] if outs else None
-            if pre_c is not None:
-                succ_vectors.setdefault(pre_c, []).append((hist, vec))
-        if merge_check:
-            for pre_c, lst in succ_vectors.items():
-                if len(lst) > 1 and lst[0][1] != lst[1][1]:
-                    rep.harness(
-                        f"HARNESS-ABSTRACTION[{label}]: histories "
-                        f"{lst[0][0]} and {lst[1][0]} share canon {pre_c[:8]}"
-                        " but their successors differ")
+            if pre_c is not None and merge_check:
+                dg = hashlib.sha1(json.dumps(vec).encode()).hexdigest()
+                if alt_run:
+                    alt_vecs.append((pre_c, hist, dg))
+                else:
+                    succ_digest[pre_c] = (hist, dg)
+        for pre_c, hist, dg in alt_vecs:
+            if pre_c in succ_digest and succ_digest[pre_c][1] != dg:
+                rep.harness(
+                    f"HARNESS-ABSTRACTION[{label}]: histories "
+                    f"{succ_digest[pre_c][0]} and {hist} share canon "
+                    f"{pre_c[:8]} but their successors differ")
         # state oracle once per new state
         sjobs = [(module, drv.name, [seen[c][0] for c in chunk])
                  for chunk in _chunks(shuffled(new), 4)]
